@@ -157,10 +157,14 @@ class FunctionRun:
     def make_pointee(self, name, spec, pointee_ct, tr, info):
         e = self.eng
         kind = parse_region_spec(spec)
-        if kind[0] == 'arr':
+        if kind[0] in ('arr', 'parr'):
             n = to_index(tr.as_tv(tr.expr(kind[2])))
             content = z3.Array(name, BV64, z3.BitVecSort(kind[1]))
             r = e.new_array_region(name, kind[1], n, content)
+            r.ptr_elems = kind[0] == 'parr'
+            if r.ptr_elems:
+                e.assume(z3.ULE(n, bv(PTRDIFF_MAX // 8, 64)))
+                return Ptr(r)
             e.assume(z3.ULE(n, bv(PTRDIFF_MAX // (kind[1] // 8), 64)))
             info['arrays'][name] = (content, n, kind[1])
             return Ptr(r)
@@ -587,9 +591,17 @@ def generalise(hyps, goal):
     return [z3.substitute(h, *pairs) for h in hyps], z3.substitute(goal, *pairs)
 
 
+RLIMIT_PER_MS = 2000      # z3 resource units per nominal millisecond (~2.0-2.2 M units per cpu second on this machine)
+WALL_FACTOR = 10          # the wall-clock limit is only a safety net: verdicts must not depend on the load of the machine
+
+
 def _run(strat, pc, goal, ms, seed):
+    """one solver call with a DETERMINISTIC budget: z3's resource limit (rlimit) instead of wall-clock time, so that a query
+    that is discharged on an idle machine is discharged under load too (and vice versa)"""
     s = _solver(strat)
-    s.set('timeout', max(500, int(ms)))
+    ms = max(500, int(ms))
+    s.set('rlimit', ms * RLIMIT_PER_MS)
+    s.set('timeout', ms * WALL_FACTOR)
     if seed:
         s.set('random_seed', seed)
     s.add(*pc)
@@ -656,12 +668,11 @@ def check(pc, goal, timeout_ms, prefer=None):
             total += dt
             if r == z3.unsat:
                 return 'unsat', total, None, '%s-generalised:%d/%d' % (name, len(sub), len(pc))
-    # all hypotheses: the strategies run CONCURRENTLY, each in its own z3 context and thread (z3 releases the GIL while it
-    # solves).  Which strategy wins differs from obligation to obligation by an order of magnitude (MBQI for the contract-
-    # directed case analyses, E-matching for the frame conditions, ...); racing them makes the wall time that of the best one
-    # and keeps verdicts from flipping with the order of the attempts.
+    # all hypotheses, strategy portfolio.  Which strategy wins differs from obligation to obligation by an order of magnitude
+    # (MBQI for some contract-directed case analyses, E-matching for frame conditions, ...): the contract may name the one to
+    # start with (`strategy={'<kind>.<name>': ...}`); VERIF_CVC_PARALLEL=1 races them in threads (own z3 context each).
     t0 = time.time()
-    r, model, reason = portfolio(pc, goal, timeout_ms, zseed)
+    r, model, reason = portfolio(pc, goal, timeout_ms, zseed, prefer)
     total += time.time() - t0
     if r == 'unsat':
         return 'unsat', total, None, reason
@@ -684,17 +695,32 @@ def _solver_in(strategy, ctx):
     return s
 
 
-def portfolio(pc, goal, timeout_ms, zseed):
+def portfolio(pc, goal, timeout_ms, zseed, prefer=None):
     import threading
-    if os.environ.get('VERIF_CVC_SEQUENTIAL') or len(STRATEGIES) < 2:
+    if not os.environ.get('VERIF_CVC_PARALLEL') or len(STRATEGIES) < 2:
+        # default: sequential, the strategies take turns with growing slices (iterative deepening: at most ~2x the best)
+        order = list(STRATEGIES)
+        if prefer in order:
+            order.remove(prefer)
+            order.insert(0, prefer)
         reasons = []
-        for strat in STRATEGIES:
-            r, dt, s = _run(strat, pc, goal, timeout_ms / max(1, len(STRATEGIES)), zseed)
+        if prefer in order:
+            r, dt, s = _run(prefer, pc, goal, timeout_ms * 0.7, zseed)
             if r == z3.unsat:
-                return 'unsat', None, strat
+                return 'unsat', None, prefer
             if r == z3.sat:
-                return 'sat', s.model(), strat
-            reasons.append('%s:%s' % (strat, s.reason_unknown()))
+                return 'sat', s.model(), prefer
+            order.remove(prefer)
+        for frac in (0.05, 0.15, 0.45):
+            reasons = []
+            for strat in order:
+                share = frac
+                r, dt, s = _run(strat, pc, goal, timeout_ms * share, zseed)
+                if r == z3.unsat:
+                    return 'unsat', None, strat
+                if r == z3.sat:
+                    return 'sat', s.model(), strat
+                reasons.append('%s:%s' % (strat, s.reason_unknown()))
         return 'unknown', None, ','.join(reasons)
     hyp = z3.And(*pc) if pc else z3.BoolVal(True)
     jobs = []
@@ -961,7 +987,7 @@ def verify_function(tu, reg, fname, prop='CVC', timeout_ms=None, kinds=None, rep
                     secs += dt
                     continue
             for piece in pieces:
-                r1, dt1, model1, reason1 = check(ob.pc, piece, timeout_ms)
+                r1, dt1, model1, reason1 = check(ob.pc, piece, timeout_ms, prefer=c.strategy.get('%s.%s' % (kind, name)))
                 dt += dt1
                 if TRACE:
                     print('      [trace] %s.%s path %d: %s %.2fs (%s) %s' % (kind, name, ob.path, r1, dt1, reason1, str(piece)[-120:].replace('\n', ' ')))
